@@ -125,10 +125,13 @@ static bool isNsAttr(const XalanNode* a, std::string& prefix)
     if (nm.compare(0, 6, "xmlns:") == 0) { prefix = nm.substr(6); return true; }
     return false;
 }
+// the document type node of a DOM is not part of the XPath data model: it is never counted
+static bool isDoctype(const XalanNode* n) { return n->getNodeType() == XalanNode::DOCUMENT_TYPE_NODE; }
 static int childIndex(const XalanNode* n)
 {
     int i = 0;
-    for (const XalanNode* p = n->getPreviousSibling(); p; p = p->getPreviousSibling()) ++i;
+    for (const XalanNode* p = n->getPreviousSibling(); p; p = p->getPreviousSibling())
+        if (!isDoctype(p)) ++i;
     return i;
 }
 std::string nodeKey(const XalanNode* n)
@@ -186,7 +189,12 @@ XalanNode* findNode(XalanDocument* d, const std::string& key)
         }
         int idx = atoi(part.c_str());
         XalanNode* c = cur->getFirstChild();
-        while (c && idx-- > 0) c = c->getNextSibling();
+        while (c && isDoctype(c)) c = c->getNextSibling();
+        while (c && idx-- > 0)
+        {
+            c = c->getNextSibling();
+            while (c && isDoctype(c)) c = c->getNextSibling();
+        }
         cur = c;
         if (j == std::string::npos) break;
         i = j + 1;
@@ -208,7 +216,8 @@ static void walk(XalanNode* n, std::vector<XalanNode*>& out, bool withAttrs, boo
                 if ((ns && withNs) || (!ns && withAttrs)) out.push_back(a);
             }
     }
-    for (XalanNode* c = n->getFirstChild(); c; c = c->getNextSibling()) walk(c, out, withAttrs, withNs);
+    for (XalanNode* c = n->getFirstChild(); c; c = c->getNextSibling())
+        if (!isDoctype(c)) walk(c, out, withAttrs, withNs);
 }
 void allNodes(XalanDocument* d, std::vector<XalanNode*>& out, bool withAttrs, bool withNs)
 {
